@@ -9,6 +9,9 @@ use std::future::poll_fn;
 use std::rc::Rc;
 use std::task::Poll;
 
+/// Outbound bytes one transport may accept before the case is aborted as a runaway.
+pub const OUT_BUDGET: usize = 24 << 20;
+
 pub const WATCHDOG_MSG: &str = "HARNESS-WATCHDOG: count-based budget (transport polls / clock reads) exhausted";
 
 #[derive(Clone, Debug, PartialEq, Eq)]
@@ -123,7 +126,7 @@ impl Transport {
             n_write: 0,
             n_flush: 0,
             touches: 0,
-            budget: 400_000,
+            budget: 5_000_000,
             last_pending: PendingWhy::None,
             events,
         }
@@ -290,6 +293,9 @@ impl Write for SimIo {
             }
             let n = s.write_chunks.next(buf.len());
             let off = s.out.len();
+            if off > OUT_BUDGET {
+                panic!("{}", WATCHDOG_MSG);
+            }
             s.out.extend_from_slice(&buf[..n]);
             s.io_calls += 1;
             s.n_write += 1;
